@@ -157,12 +157,14 @@ SIG_SEND_C05 = {"message-started-without-the-message-lock", "writer-step-without
 SIG_SEND_C02 = {"message-compressed-without-negotiated-deflate", "compression-decision-changed-inside-a-message", "first-frame-opcode-is-not-the-message-type",
                 "later-frame-of-a-message-is-not-a-continuation", "rsv1-does-not-match-the-compression-decision", "frame-payload-differs-from-the-declared-length"}
 SIG_SEND_C01 = {"message-bytes-on-the-wire-differ-from-the-bytes-written", "compression-decision-changed-inside-a-message"}
-SIG_SEND_ALL = SIG_SEND_C05 | SIG_SEND_C02 | SIG_SEND_C01
+SIG_SEND_C06 = {"close-frame-on-the-wire-differs-from-the-close-requested", "close-frame-written-without-a-close-request"}
+SIG_SEND_ALL = SIG_SEND_C05 | SIG_SEND_C02 | SIG_SEND_C01 | SIG_SEND_C06
 SIG_C02 |= SIG_SEND_C02 | SIG_SEND_C01
 SIG_C05 |= SIG_SEND_C05 | SIG_SEND_C01
 SIG_RECV_ALL = SIG_RECV_C03 | SIG_RECV_C04 | SIG_RECV_C08 | SIG_RECV_C15
 SIG_C05 |= SIG_RECV_FRAMING | SIG_RECV_C04
 SIG_C15 |= SIG_RECV_C15
+SIG_C06 |= SIG_SEND_C06
 SIG_C06 |= {"invalid-close-frame-accepted", "close-error-differs-from-the-frame", "close-reported-without-a-close-frame"}
 
 
@@ -306,7 +308,7 @@ def c06(ctx, replay):
     rep = ctx.drive("closetab", ["-rows", rows, "-seed", ctx.seed])
     ctx.absorb(rep)
     ctx.extra["exhaustive"] = True
-    conc_campaign(ctx, 200 if ctx.quick() else 3000, SIG_C06)
+    conc_campaign(ctx, 400 if ctx.quick() else 3000, SIG_C06)
     ctx.extra["rule"] = ("decision table written by TLC from WSBase!ValidWireCode: Close(code, reason) for every code -1..65536 and 2^31-1 with reason "
                          "lengths 0 and 123, reason lengths {0,1,122,123,124,125,130} on 20 boundary codes, peers that echo / answer another code / "
                          "stay silent; every 16-bit code as an incoming Close frame; both roles; plus seeded concurrent executions validating "
